@@ -54,7 +54,8 @@ package zhttp
 // A parameter named with a [] suffix or repeated is a list, a single one a string, a missing one "" (= absent).
 //@ func (urlDataProvider).Get(u, key)
 //@   pure
-//@   ensures[C15,C14] bracket_suffix_is_a_list: strlen(key) > 2 && suffixof("[]", key) ==> result == box(u.Data[key])
+//@   ensures[C15,C14] bracket_suffix_is_a_list: strlen(key) > 2 && suffixof("[]", key) && u.Data != nil && has(u.Data, key) ==> result == box(u.Data[key])
+//@   ensures[C04,C14,C01] missing_list_parameter_is_absent: strlen(key) > 2 && suffixof("[]", key) && !(u.Data != nil && has(u.Data, key)) ==> result == nil
 //@   ensures[C15,C14] repeated_is_a_list: !(strlen(key) > 2 && suffixof("[]", key)) && len(u.Data[key]) > 1 ==> result == box(u.Data[key])
 //@   ensures[C15,C14] single_is_a_string_missing_is_empty: !(strlen(key) > 2 && suffixof("[]", key)) && len(u.Data[key]) <= 1 ==> result == box(ite(len(u.Data[key]) == 1, u.Data[key][0], ""))
 
